@@ -26,7 +26,8 @@
 (* harness at real size.                                                       *)
 EXTENDS Proofs
 
-CONSTANT Sys
+CONSTANTS Sys,   \* the systems to classify
+          Wide   \* larger simulated domains (thorough tier)
 
 VARIABLE tr
 vars == <<tr>>
@@ -48,7 +49,9 @@ Sim_dln(d) ==
   { T("dln", [K |-> 2], [h1 |-> h1, h2 |-> h2, N |-> 77],
       [alpha |-> [i \in 1..2 |-> LET a == Mul(Exp(h1, t[i], 77), Exp(h2, -c[i], 77), 77) IN IF a = Und THEN 0 ELSE a + sh],
        t |-> t], c) :
-      h1 \in {0, 1, 4, 16, 77 + 4, 78}, h2 \in {0, 1, 4, 16, 25, 77 + 16}, t \in [1..2 -> {0, 1, 2, 7, 77 + 1, 77 + 5}],
+      h1 \in (IF Wide THEN {0, 1, 4, 16, 77 + 4, 78} ELSE {0, 1, 4, 77 + 4}),
+      h2 \in (IF Wide THEN {0, 1, 4, 16, 25, 77 + 16} ELSE {0, 1, 4, 16, 77 + 16}),
+      t \in [1..2 -> (IF Wide THEN {0, 1, 2, 7, 77 + 1, 77 + 5} ELSE {0, 1, 2, 77 + 1})],
       c \in [1..2 -> {0, 1}], sh \in {0, 77} }
 
 (* pai, K = 1: y free, the challenge is solved (x = y^N) *)
@@ -71,8 +74,8 @@ Sim_mod(d) ==
               [W |-> IF v = "W+N" THEN W + N ELSE W, X |-> <<IF v = "X+N" THEN X + N ELSE X>>, Z |-> <<IF v = "Z+N" THEN Z + N ELSE Z>>,
                A |-> ModBits(a, CASE v = "A_short" -> 1 [] v = "A_long" -> 3 [] OTHER -> 2),
                B |-> ModBits(b, CASE v = "B_short" -> 1 [] v = "B_long" -> 3 [] OTHER -> 2)], <<Y>>) :
-              m \in ModSols(N), v \in ModVariants } :
-          N \in {7, 9, 15, 21} }
+              m \in ModSols(N), v \in (IF Wide \/ N = 15 THEN ModVariants ELSE {"none"}) } :
+          N \in (IF Wide THEN {7, 9, 15, 21} ELSE {7, 9, 15}) }
 
 (* fac: responses free, A, B, T solved *)
 FacSt(N0) == [N0 |-> N0, NC |-> 77, s |-> 4, t |-> 16]
@@ -95,27 +98,39 @@ Sim_alice(d) ==
         u0 == Mul3(Exp(36, s1, 1225), Exp(s, 35, 1225), Exp(c, -e, 1225), 1225)
         w0 == Mul3(Exp(4, s1, 77), Exp(16, s2, 77), Exp(z, -e, 77), 77)
     IN T("alice", par, [c |-> c],
-         [z |-> z, u |-> IF u0 = Und THEN 0 ELSE u0 + su * 1225, w |-> IF w0 = Und THEN 0 ELSE w0 + sw * 77,
+         [z |-> z, u |-> IF u0 = Und THEN 0 ELSE u0 + uw[1] * 1225, w |-> IF w0 = Und THEN 0 ELSE w0 + uw[2] * 77,
           s |-> s, s1 |-> s1, s2 |-> s2], e) :
-      c \in {Enc(MtaPar, 2, 3), 35, 1225 + Enc(MtaPar, 2, 3)}, z \in {1, 9, 7, 77 + 9}, s \in {1, 3, 5, 35 + 3, 0},
-      s1 \in {0, 2, 3, 27, 28}, s2 \in {0, 2, 3, 9}, e \in 0..2, su \in {0, 1}, sw \in {0, 1} }
+      c \in (IF Wide THEN {Enc(MtaPar, 2, 3), 35, 1225 + Enc(MtaPar, 2, 3)} ELSE {Enc(MtaPar, 2, 3), 35}),
+      z \in {1, 9, 7, 77 + 9}, s \in (IF Wide THEN {1, 3, 5, 35 + 3, 0} ELSE {1, 3, 5, 35 + 3}),
+      s1 \in (IF Wide THEN {0, 2, 3, 27, 28} ELSE {2, 3, 27, 28}), s2 \in (IF Wide THEN {0, 2, 3, 9} ELSE {2, 3, 9}), e \in 0..2,
+      uw \in (IF Wide THEN {<<0, 0>>, <<1, 0>>, <<0, 1>>, <<1, 1>>} ELSE {<<0, 0>>, <<1, 0>>, <<0, 1>>}) }
 
-(* bob / bobwc: z, t, s, s1, s2, t1, t2, e, c1, c2 free; z', w, v solved (and shifted) *)
+(* bob / bobwc: z, t, s, s1, s2, t1, t2, e, c1, c2 free; z', w, v solved, one of them possibly shifted (sh = 1, 2, 3) *)
+BobT(wc, z, t, s, s1, s2, t1, t2, e, sh, X) ==
+  LET par == MtaPar
+      c1  == Enc(MtaPar, 1, 2)
+      c2  == Enc(MtaPar, 4, 3)
+      zp0 == Mul3(Exp(4, s1, 77), Exp(16, s2, 77), Exp(z, -e, 77), 77)
+      w0  == Mul3(Exp(4, t1, 77), Exp(16, t2, 77), Exp(t, -e, 77), 77)
+      v0  == Mul(Mul3(Exp(c1, s1, 1225), Exp(s, 35, 1225), Exp(36, t1, 1225), 1225), Exp(c2, -e, 1225), 1225)
+      pf  == [z |-> z, zp |-> IF zp0 = Und THEN 0 ELSE zp0 + (IF sh = 1 THEN 77 ELSE 0), t |-> t,
+              v |-> IF v0 = Und THEN 0 ELSE v0 + (IF sh = 2 THEN 1225 ELSE 0),
+              w |-> IF w0 = Und THEN 0 ELSE w0 + (IF sh = 3 THEN 77 ELSE 0),
+              s |-> s, s1 |-> s1, s2 |-> s2, t1 |-> t1, t2 |-> t2]
+  IN IF wc THEN T("bobwc", par, [c1 |-> c1, c2 |-> c2, X |-> X], pf @@ [U |-> (s1 - e * X) % 3], e)
+           ELSE T("bob", par, [c1 |-> c1, c2 |-> c2], pf, e)
+(* bob: one of (z, t) deviates at a time (all of them in the thorough tier); the shifts only on top of z = 9, t = 25, s = 3 *)
+ZT == IF Wide THEN {9, 7, 77 + 9} \X {25, 11, 77 + 25} ELSE {<<9, 25>>, <<7, 25>>, <<77 + 9, 25>>, <<9, 11>>, <<9, 77 + 25>>}
 SimBobBase(wc) ==
-  { LET par == MtaPar
-        zp0 == Mul3(Exp(4, s1, 77), Exp(16, s2, 77), Exp(z, -e, 77), 77)
-        w0  == Mul3(Exp(4, t1, 77), Exp(16, t2, 77), Exp(t, -e, 77), 77)
-        v0  == Mul(Mul3(Exp(c1, s1, 1225), Exp(s, 35, 1225), Exp(36, t1, 1225), 1225), Exp(c2, -e, 1225), 1225)
-        pf  == [z |-> z, zp |-> IF zp0 = Und THEN 0 ELSE zp0 + (IF sh = 1 THEN 77 ELSE 0), t |-> t,
-                v |-> IF v0 = Und THEN 0 ELSE v0 + (IF sh = 2 THEN 1225 ELSE 0),
-                w |-> IF w0 = Und THEN 0 ELSE w0 + (IF sh = 3 THEN 77 ELSE 0), s |-> s, s1 |-> s1, s2 |-> s2, t1 |-> t1, t2 |-> t2]
-    IN IF wc THEN T("bobwc", par, [c1 |-> c1, c2 |-> c2, X |-> X], pf @@ [U |-> (s1 - e * X) % 3], e)
-             ELSE T("bob", par, [c1 |-> c1, c2 |-> c2], pf, e) :
-      c1 \in {Enc(MtaPar, 1, 2)}, c2 \in {Enc(MtaPar, 4, 3)},
-      z \in (IF wc THEN {9} ELSE {9, 7, 77 + 9}), t \in (IF wc THEN {25} ELSE {25, 11, 77 + 25}),
-      s \in (IF wc THEN {3} ELSE {3, 5, 0, 35 + 3}), s1 \in (IF wc THEN {2, 3, 4, 27, 28} ELSE {2, 4, 27, 28}), s2 \in {2, 3},
-      t1 \in (IF wc THEN {2, 3, 2187, 2188} ELSE {2, 2187, 2188}), t2 \in {2, 3},
-      e \in 0..2, sh \in (IF wc THEN {0} ELSE {0, 1, 2, 3}), X \in (IF wc THEN {0, 1, 2} ELSE {0}) }
+  IF wc THEN
+    { BobT(TRUE, 9, 25, 3, s1, s2, t1, t2, e, 0, X) :
+        s1 \in {2, 3, 4, 27, 28}, s2 \in {2, 3}, t1 \in {2, 3, 2187, 2188}, t2 \in {2, 3}, e \in 0..2, X \in {0, 1, 2} }
+  ELSE
+    { BobT(FALSE, zt[1], zt[2], s, s1, s2, t1, t2, e, 0, 0) :
+        zt \in ZT, s \in {3, 5, 0, 35 + 3}, s1 \in {2, 4, 27, 28}, s2 \in {2, 3}, t1 \in {2, 2187, 2188}, t2 \in {2, 3}, e \in 0..2 }
+    \cup
+    { BobT(FALSE, 9, 25, 3, s1, s2, t1, t2, e, sh, 0) :
+        s1 \in {2, 4, 27, 28}, s2 \in {2, 3}, t1 \in {2, 2187, 2188}, t2 \in {2, 3}, e \in 0..2, sh \in 1..3 }
 
 Sim(s) ==
   CASE s = "sch" -> Sim_sch(5) [] s = "schv" -> Sim_schv(5) [] s = "dln" -> Sim_dln(0) [] s = "pai" -> Sim_pai(0)
@@ -254,7 +269,7 @@ Answerable(N, W, Y) ==
   /\ \E a \in {0, 1}, b \in {0, 1}, X \in 1..(N - 1) :
        Exp(X, 4, N) = (LET y1 == IF a = 1 THEN (-Y) % N ELSE Y IN IF b = 1 THEN (W * y1) % N ELSE y1)
 FS_mod ==
-  \A N \in {n \in 3..77 : n % 2 = 1} :
+  \A N \in {n \in 3..(IF Wide THEN 77 ELSE 45) : n % 2 = 1} :
      LET U  == Units(N)
          Ws == {w \in U : Jacobi(w, N) = -1}
      IN  \A W \in Ws :
